@@ -396,4 +396,4 @@ def run(ctx):
 
 
 def norm_run_err(s):
-    return re.sub(r"prog\.w[az]:\d+:\d+", "prog:L:C", s)
+    return re.sub(r"prog\.w[az]", "prog", re.sub(r"prog\.w[az]:\d+:\d+", "prog:L:C", s))
